@@ -4,7 +4,7 @@ import json, os
 HOOK_COMMITS = ["1d323e3"]
 CHECKS = {
  "C15": dict(cat="exploration", tech="runtime monitoring: closed reference model (Rust str + unicode-segmentation + format!) over bounded-exhaustive string / index / option grids executed by the real runtime, UTF-8 validation of every string handed back to the host",
-   text="Every string of <= 3 (thorough: 4) symbols over a 9-symbol alphabet mixing 1-4 byte characters, a combining mark, space, LF, CRLF and a comma is run - as a fresh host value, as a sub-slice of a concatenation and as a slice of a slice - through a batch of 400-1500 operations (all index and range arguments in and just beyond bounds, every string function of the core library with 19 patterns, loops, unpacking, interpolation, round-trip laws); results are compared element by element with the Rust oracle and every returned string is validated as UTF-8. The complete format-option grid (11 000 cells) is compared with Rust formatting; all pairs of 19 literal escape items and seeded number round trips through to_number are checked.",
+   text="Every string of <= 4 (thorough: 5) symbols over a 9-symbol alphabet mixing 1-4 byte characters, a combining mark, space, LF, CRLF and a comma is run - as a fresh host value, as a sub-slice of a concatenation and as a slice of a slice - through a batch of 400-1500 operations (all index and range arguments in and just beyond bounds, every string function of the core library with 19 patterns, loops, unpacking, interpolation, round-trip laws); results are compared element by element with the Rust oracle and every returned string is validated as UTF-8. The complete format-option grid (11 000 cells) is compared with Rust formatting; all pairs of 19 literal escape items and seeded number round trips through to_number are checked.",
    note="Trusted: Rust std / unicode-segmentation as oracle. Empty patterns, to_number on arbitrary text, and representation+precision on non-floats are outside the compared set. The same batches are the Miri / ASan workload of the sanitizer layer.", ref="4 C15"),
  "C08": dict(cat="exploration", tech="runtime monitoring: oracle over real runs under an execution limit (error text at the API boundary, catch-marker output, TimeoutArmed/Polled/Fired events of the observer hook, residue invariant, watchdog for non-return) over a shape x nesting x wrapper x limit grid",
    text="9 endless shapes x 10 nestings x 6 try/catch wrappers x 3-4 limits (complete grid on two builds in the thorough tier, seeded sample in the quick tier): each run must return before a watchdog with a timeout error, no catch block may have run, the overshoot measured inside the VM at the TimeoutFired event stays below max(3L, L + 1 s) (three attempts), the VM is quiescent afterwards and a probe script runs on the same instance. Terminating generated programs must behave identically with and without a limit.",
